@@ -20,14 +20,25 @@ CFG = dict(
     theorem_hint="Props/C13.v: C13_shift_positional, C13_vdiff_positional, C13_vpct_change_positional, "
                  "C13_ffill_positional, C13_bfill_positional, C13_fill_touches_only_nulls, C13_vclip_positional, "
                  "C13_clip_idempotent, C13_clip_contained, C13_vabs_preserves_nullness",
-    level_text="Proof: 36 theorems (Props/C13.v, axiom-free) about the Gallina model of all thirteen operations, for "
+    level_text="Proof: 63 theorems (Props/C13.v; axiom-free except the option R / binary64 carrier instances) about the Gallina model of all thirteen operations, for "
                "every series, every integer lag (|n| >= len and i32::MIN/MAX included), every fill value and every "
                "null dictionary: shift/vshift total, length-preserving, element i = x[i-n] or the fill; vdiff = "
                "x[i]-x[i-n] or the fill itself (exact over Z; null on a null operand); vpct_change = x[i]/x[i-n]-1 "
                "on non-null operands with a non-zero base, null elsewhere; ffill/bfill = nearest earlier/later "
                "non-null element (nearest proved as an iff) else the default; fill changes exactly the nulls; clip "
                "keeps nullness, is idempotent and contained for lower <= upper; abs/vabs keep nullness; all "
-               "length-preserving. The model is tied to the code by an exhaustive small-scope + sampled differential "
+               "length-preserving. Audit (27 more theorems, Proofs/Audit13.v; notes/C13.md has the clause x theorem "
+               "matrix): the i32 lag is n.unsigned_abs() = |n| for every i32 (two's-complement definitions; -n "
+               "overflows at i32::MIN); lag 0 and |n| >= len as whole results; lengths with no hypothesis; the "
+               "rejected inputs exactly (vshift / vdiff panic iff the fill is omitted on a type without a null, also "
+               "on the empty series; ffill / bfill panic iff additionally the first / last element is masked, and "
+               "otherwise return the positional result whatever the default is); where nulls remain after the "
+               "fills; clip with null / reversed / unordered bounds (reversed: every element becomes a bound and a "
+               "second application swaps them - refuted idempotence); carrier instances with the arithmetic "
+               "premises discharged: option R (exact x[i]-x[i-n], x[i]/x[i-n]-1, max(lo,min(hi,x))) and Coq's "
+               "binary64 (NaN propagation of -, |NaN|, irreflexive <, from the standard library's FloatAxioms). "
+               "Still only by correspondence: the announced length (size_hint), the backends, i32 overflow. The "
+               "model is tied to the code by an exhaustive small-scope + sampled differential "
                "run through the public API on every backend.",
     level_note="Trusted: Coq kernel; the hand-written list model of tea-map's iterator constructions and of std's "
                "repeat_n/chain/zip/take/skip/rev/map; the IsNone dictionary instances (f64, Option, integer); IEEE "
@@ -35,7 +46,9 @@ CFG = dict(
                "abstract operations / Z. Three defects repaired by fix: commits (KNOWN_FINDINGS.d/C13.txt). Not "
                "exercised: u8/u64/usize/bool element types, Some(NaN) (DESIGN 5.4), integer overflow of x[i]-x[i-n] / abs(i32::MIN) "
                "(DESIGN 5.2), the polars backend.",
-    trusted=["the list model of std iterator adaptors (repeat_n, chain, zip, take, skip, rev, map) and of "
+    trusted=["carrier instances only: Reals axioms of the Coq standard library (C13_*_real) and its specification of the "
+             "primitive binary64 operations FloatAxioms.{eqb,ltb,sub,abs}_spec (C13_*_binary64)",
+             "the list model of std iterator adaptors (repeat_n, chain, zip, take, skip, rev, map) and of "
              "TrustIter/to_trust as 'yields the items of the wrapped iterator' (its announced length is C09's subject; "
              "the harness compares size_hint with the model's length on every case)",
              "the three IsNone dictionary families (dict_float, dict_opt, dict_int) as models of tea-dtype/src/isnone.rs"],
